@@ -6,7 +6,7 @@
    the implementation at the same budgets. *)
 From Coq Require Import ZArith List Bool Znumtheory.
 Require Import Model.Base Model.Field Model.Ir Model.Propagate Model.Justify.
-Require Import Spec.FieldSpec Spec.ValueSem Proofs.ValueProofs Proofs.CutProofs Proofs.CutInvariant Proofs.DegErase.
+Require Import Spec.FieldSpec Spec.ValueSem Proofs.ValueProofs Proofs.CutProofs Proofs.CutInvariant Proofs.DegErase Proofs.PropagateTotal.
 Import ListNotations.
 Local Open Scope Z_scope.
 
@@ -85,3 +85,43 @@ Theorem C20_invariant_implies_validated : forall p ss env,
   Inv p ss env -> forallb (vjust_stmt ss p) ss = true.
 Proof. exact Inv_validated. Qed.
 Print Assumptions C20_invariant_implies_validated.
+
+(* "at whatever point they stop ... the tool still completes normally": on a graph
+   without claims and with unique local definitions (what lifting and SSA conversion
+   hand over; both conditions are evaluated on every explored definition), for EVERY
+   pair of budgets the mirror returns Ok: the assert_eq! of add_variable never fires
+   (a repeated visit finds the value it stored) and the field functions neither panic
+   nor run out of fuel (their operands are canonical at every moment) *)
+Theorem C20_propagate_completes : forall p, prime p -> 2 < p -> Z.log2 p < 2 ^ 64 ->
+  forall kv kd c, clean_cfg c = true -> ldefs_unique (all_stmts (c_blocks c)) = true ->
+  exists c', propagate kv kd p c = Ok c'.
+Proof. exact propagate_completes. Qed.
+Print Assumptions C20_propagate_completes.
+
+(* non-vacuity: a clean two-statement graph  x.1 = 2 + 3; return x.1 * 2  meets both
+   hypotheses; cut before the first pass it carries no claim, after one pass the
+   literals and the sum are known, at the fixpoint the product is 3 = 10 mod 7; every
+   one of these graphs is accepted by the validator *)
+Definition ex20_k0 : know := {| kval := None; kdeg := None |}.
+Definition ex20_x1 : vname := {| vn_name := [120%N]; vn_suffix := None; vn_version := Some 1%N |}.
+Definition ex20_m : meta := {| m_start := 0%N; m_end := 0%N; m_file := None |}.
+Definition ex20_graph : cfg :=
+  {| c_kind := KFunction; c_params := []; c_decls := [];
+     c_blocks := [ {| b_index := 0%N; b_depth := 0%N; b_preds := []; b_succs := [];
+       b_stmts := [ SSubst ex20_m ex20_x1 OpVar (EInfix IAdd (ENum 2 ex20_k0) (ENum 3 ex20_k0) ex20_k0) None (Some TLocal);
+                    SRet ex20_m (EInfix IMul (EVar ex20_x1 ex20_k0) (ENum 2 ex20_k0) ex20_k0) ] |} ] |}.
+Definition ex20_ret_claim (o : outcome cfg) : option (option vred) :=
+  match o with
+  | Ok c => match c_blocks c with
+            | [b] => match b_stmts b with [_; SRet _ e] => Some (expr_val e) | _ => None end
+            | _ => None
+            end
+  | _ => None
+  end.
+Example C20_example :
+  clean_cfg ex20_graph = true /\ ldefs_unique (all_stmts (c_blocks ex20_graph)) = true /\
+  ex20_ret_claim (propagate 0 0 7 ex20_graph) = Some None /\
+  ex20_ret_claim (propagate 1 0 7 ex20_graph) = Some None /\
+  ex20_ret_claim (propagate 9 9 7 ex20_graph) = Some (Some (VField 3)) /\
+  forallb (fun k => match propagate k k 7 ex20_graph with Ok c => vjust_cfg 7 c | _ => false end) [0; 1; 2; 3; 4; 9]%nat = true.
+Proof. vm_compute. repeat split; reflexivity. Qed.
